@@ -11,6 +11,12 @@ STYLES = [dict(sep='\n', paren=True, upper=False, header=True, delim='{}'),
           dict(sep='\n', paren=True, upper=True, header=False, delim='{}')]
 
 
+# comments are comments whatever their first word is (only the exact forms '# text(' / '# composite(' are region lines)
+COMMENTS = ['# just a comment circle(1,2,3)', '# text labels for the sources follow', '# composite of two fields', '# textual note', '#', '# text: see the catalogue',
+            '# Region file format: DS9 version 4.1']
+COMMENT = [0]
+
+
 def sexa(v, style):
     sign = '-' if v < 0 else ''
     t = abs(v)
@@ -72,7 +78,8 @@ def line(l, st):
     if k == 'global':
         return 'global ' + props(l['props'], st)
     if k == 'comment':
-        return '# just a comment circle(1,2,3)'
+        COMMENT[0] += 1
+        return COMMENTS[COMMENT[0] % len(COMMENTS)]
     if k == 'blank':
         return ''
     if k == 'badshape':
